@@ -173,6 +173,17 @@ pub fn c07(opts: &Opts) -> Report {
                          vec![("template", text.clone()), ("input", x.to_string()), ("observed", t.real.show()), ("theorem", "C07_progress".into())]);
                     return;
                 }
+                if infer_none && *x == "a,b" {
+                    // the same through format_with_inputs with two inputs for the section: no partial result
+                    if let real::Parsed::Ok(tpl) = real::parse(&text) {
+                        let got = real::fwi(&tpl, &[vec![x.to_string(), "zzz".to_string()]], &[" ".to_string()]);
+                        if got != Out::Err {
+                            viol(ctx, format!("C07: ill-typed pipeline {} through format_with_inputs on two inputs gives {} instead of an error", text, got.show()),
+                                 vec![("template", text.clone()), ("input", x.to_string()), ("observed", got.show()), ("theorem", "C07_ill_typed_fails".into())]);
+                            return;
+                        }
+                    }
+                }
                 if infer_none && t.real != Out::Err {
                     viol(ctx, format!("C07: ill-typed pipeline {} does not fail on {:?}: {}", text, x, t.real.show()),
                          vec![("template", text.clone()), ("input", x.to_string()), ("observed", t.real.show()), ("theorem", "C07_ill_typed_fails".into())]);
@@ -213,6 +224,19 @@ pub fn c08(opts: &Opts) -> Report {
                 ctx.rep.nontrivial(&(t.text.clone(), input.clone()));
                 hist(ctx, &ops, &input, &t.real);
                 judge(ctx, "C08", &t, &ops, &input, "C08_code_does_this");
+                return;
+            }
+            if i % 20 == 3 {
+                // a sub-pipeline that fails on the items, directly followed by a slice / filter that would discard them:
+                // the error of an item fails the call whatever happens to the item afterwards
+                let failing = ctx.rng.pick(&[vec![Op::Sort(SDir::Asc)], vec![Op::Unique], vec![Op::Slice(Range::Range(Some(0), Some(1), false))], vec![Op::Split(" ".into(), Range::Range(None, None, false)), Op::Upper], vec![Op::Upper, Op::Filter("[".into())], vec![Op::RegexExtract("(".into(), None)]]).clone();
+                let after = ctx.rng.pick(&[Op::Slice(Range::Range(Some(3), None, false)), Op::Slice(Range::Range(Some(5), Some(9), false)), Op::Slice(Range::Range(Some(2), Some(1), false)), Op::Slice(Range::Range(Some(0), Some(0), false)), Op::Slice(Range::Range(Some(-1), Some(-2), false)), Op::Filter("^ZZZ$".into()), Op::Slice(Range::Range(Some(1), None, false))]).clone();
+                let ops = vec![Op::Split(",".into(), Range::Range(None, None, false)), Op::Map(failing), after];
+                let input = ctx.rng.pick(&["a,b", "a,b,c", "x"]).to_string();
+                let t = triple(ctx, &ops, &input, false);
+                ctx.rep.eval(); ctx.rep.bump("failing_items_then_discarded");
+                ctx.rep.nontrivial(&(t.text.clone(), input.clone()));
+                judge(ctx, "C08", &t, &ops, &input, "C08_first_error_fails_the_call");
                 return;
             }
             let ops = vec![Op::Split(s.clone(), Range::Range(None, None, false)), Op::Map(body.clone()), Op::Join(j.clone())];
@@ -283,6 +307,39 @@ pub fn c09(opts: &Opts) -> Report {
                     if !judge(ctx, "C09", &t2, &ops2, &joined, "C09_code_does_this") { return; }
                 }
                 return;
+            }
+            if i % 40 == 9 || i % 40 == 29 {
+                // the same single-split section on two different texts of the same byte length held in ONE buffer
+                // (a line buffer cleared and refilled): what was computed for the first must not come back for the second
+                let n = 2 + ctx.rng.below(4);
+                let a: Vec<String> = (0..n).map(|_| gens::word(&mut ctx.rng)).collect();
+                let mut b: Vec<String> = a.iter().map(|w| w.chars().rev().collect::<String>().to_uppercase()).collect(); b.rotate_left(1);
+                let sepc = if s.is_empty() || s.len() > 2 { ",".to_string() } else { s.clone() };
+                let (xa, xb) = (a.join(&sepc), b.join(&sepc));
+                if xa.len() == xb.len() && xa != xb {
+                    let r = gens::range(&mut ctx.rng);
+                    let ops = vec![Op::Split(sepc.clone(), r)];
+                    let text = print_block(&ops);
+                    if let real::Parsed::Ok(tpl) = real::parse(&text) {
+                        let mut buf = String::with_capacity(xa.len() + 8);
+                        buf.push_str(&xa); let ra = real::format(&tpl, &buf);
+                        buf.clear(); buf.push_str(&xb); let rb = real::format(&tpl, &buf);
+                        let (_, sa) = ctx.drv.run(false, &wire_ops(&ops), &xa); let (_, sb) = ctx.drv.run(false, &wire_ops(&ops), &xb);
+                        ctx.rep.bump("same_buffer_pairs");
+                        if ra != sa || rb != sb {
+                            viol(ctx, format!("C09: {text} on {xa:?} then on {xb:?} in the same buffer: {} then {}; each alone gives {} and {}", ra.show(), rb.show(), sa.show(), sb.show()),
+                                 vec![("template", text.clone()), ("input", xb.clone()), ("previous_input", xa.clone()), ("observed", rb.show()), ("expected", sb.show()), ("theorem", "C09_fast_single_split".into())]);
+                            return;
+                        }
+                    }
+                }
+                // two sections of one template that differ only in the letter case of the join separator
+                let jl = ctx.rng.pick(&["x", "ab", "é", "q"]).to_string(); let ju = jl.to_uppercase();
+                let text = format!("{} {}", print_block(&[Op::Split(",".into(), full.clone()), Op::Join(ju.clone())]), print_block(&[Op::Split(",".into(), full.clone()), Op::Join(jl.clone())]));
+                let xin = "a,b,c";
+                let got = real::parse_format(&text, xin);
+                let want = Out::Ok(format!("{} {}", xin.replace(',', &ju), xin.replace(',', &jl)));
+                if got != want { viol(ctx, format!("C09: format({text:?}, {xin:?}) = {} but each join is plain replacement: {}", got.show(), want.show()), vec![("template", text), ("input", xin.into()), ("observed", got.show()), ("expected", want.show()), ("theorem", "C09_join_split_is_replace".into())]); return; }
             }
             // identity 1: split then (implicit) join restores the text
             let ops1 = vec![Op::Split(s.clone(), full.clone())];
@@ -443,7 +500,7 @@ pub fn validate_l1(ctx: &mut Ctx, n: u64) {
 
 /* ---------------- C15 ------------------------------------------------------ */
 fn list_input(rng: &mut Rng) -> (String, Vec<String>) {
-    let n = match rng.below(10) { 0 => 0, 1 => 1, 2..=7 => 2 + rng.below(8), 8 => 30 + rng.below(50), _ => 500 + rng.below(1500) };
+    let n = match rng.below(12) { 0 => 0, 1 => 1, 2..=7 => 2 + rng.below(8), 8 => 30 + rng.below(50), 9 => 500 + rng.below(1500), 10 => *rng.pick(&[65usize, 99, 257, 1001]), _ => *rng.pick(&[2049usize, 2051, 4097, 2050]) };
     let pool = ["a", "b", "ab", "abc", "", "B", "é", "e", "日", "a ", "10", "9", "z", "aa", "ζ", "A"];
     // items that agree on their first 7-8 BYTES and differ after, with a multi-byte character across byte 8; prefixes of
     // one another; items differing only by a trailing NUL
@@ -534,6 +591,8 @@ pub fn c16(opts: &Opts) -> Report {
                        let l: String = (0..n).map(|_| *ctx.rng.pick(&[' ', '\t', '\n', '\u{b}', '\u{c}', '\r'])).collect(); format!("{l}{w}{l}") }
                 _ => gens::text(&mut ctx.rng, 4),
             };
+            // strings of white space only (ASCII and not), and strings that begin with a combining mark
+            let base = if i % 25 == 4 { let n = 1 + ctx.rng.below(4); (0..n).map(|_| *ctx.rng.pick(gens::WS_CHARS)).collect() } else if i % 25 == 14 { format!("\u{301}{base}") } else { base };
             let op = match ctx.rng.below(8) {
                 0 => Op::Reverse,
                 1 => Op::Substring(gens::range(&mut ctx.rng)),
